@@ -181,6 +181,19 @@ example (s : Schema) (d : QueryDoc) (hd : ∀ op ∈ d.ops, op.op ∈ parserOpKi
       · exact Or.inr (Or.inl h)
       · exact Or.inl hr
 
+/-
+  NOT a theorem (and false for the repaired code as it is): the polynomial cost bound
+      C02_overlap_ticks : ticks ≤ c · nodes(d)² · (fragments(d) + 1)²
+  of DESIGN C02.  The in-progress set only cuts cycles; a pair of fields that has been compared is
+  compared again whenever it is reached along another path.  On
+      { u { ...F } }   fragment F on Node { u { u { … u { id ...F } … ...F } ...F } }      (k levels)
+  every pair `(u_i, u_j)` is reached along exponentially many paths: the real rule needs 5 s for
+  k = 10 (151 bytes), 33 s for k = 11, 214 s for k = 12 (173 bytes), the model 0.65 s / 4.6 s / 29 s
+  (X-overlap, family `fragment-cycle-every-level`).  The depth bound above (`2·F²`) is tight for the
+  recursion DEPTH only.  The memoisation of completed `(selection set, selection set, exclusive)`
+  comparisons proposed in DESIGN C02 (b) would give the polynomial bound.
+-/
+
 /-- kernel-checked: on `{ u { ...F } } fragment F on Node { u { id ...F } ...F }` — a fragment that
     reaches itself directly and through a field, the shape of DESIGN §7 R2d — the model of the repaired
     rule terminates with an empty error list (the real rule agrees: X-overlap) -/
